@@ -437,56 +437,80 @@ func suiteArchiveOps(c *Ctx) {
 		return
 	}
 	r := c.Rng
-	// 1. exhaustive short protocol histories over a 3x3 value grid x 3 action sets.
-	//    consistent stream: the action set determines the vector row; plus the free (inconsistent) stream.
-	vals := []float64{0, 1, 2}
-	var grid []cand
+	// 1. exhaustive short protocol histories over small value grids x 3 action sets, in dimension 2 (3x3 values),
+	//    dimension 1 (3 values: dominance is a total preorder, ties are equal vectors) and dimension 3 (2x2x2 values).
+	//    The free stream: the same action set may come with different vectors (inconsistent), so both the
+	//    consistent and the inconsistent histories are enumerated.
 	acts := [][]bool{{false, false}, {true, false}, {false, true}}
-	for _, a := range vals {
-		for _, b := range vals {
-			for _, bs := range acts {
-				grid = append(grid, cand{vec: []float64{a, b}, bits: bs})
-			}
-		}
-	}
-	maxLen := c.N(3, 4)
-	var rec func(prefix []int)
-	count := 0
-	rec = func(prefix []int) {
-		if len(prefix) > 0 {
-			if count%c.Shards == c.Shard {
-				// run the history twice: offers only, and with force-after-refusal
-				for _, withForce := range []bool{false, true} {
-					s := newArchSession(c, "exh")
-					for _, gi := range prefix {
-						code := s.attempt(grid[gi])
-						if withForce && code == "RD" {
-							s.force(grid[gi], true)
-						}
-					}
-					s.selfCheck()
+	mkGrid := func(d int, vals []float64) []cand {
+		var grid []cand
+		var rec func(prefix []float64)
+		rec = func(prefix []float64) {
+			if len(prefix) == d {
+				for _, bs := range acts {
+					grid = append(grid, cand{vec: append([]float64(nil), prefix...), bits: bs})
 				}
+				return
 			}
-			count++
+			for _, v := range vals {
+				rec(append(prefix, v))
+			}
 		}
-		if len(prefix) == maxLen {
-			return
-		}
-		for gi := range grid {
-			rec(append(prefix, gi))
-		}
+		rec(nil)
+		return grid
 	}
+	count := 0
+	exhaustive := func(grid []cand, maxLen int, tag string) {
+		var rec func(prefix []int)
+		rec = func(prefix []int) {
+			if len(prefix) > 0 {
+				if count%c.Shards == c.Shard {
+					// run the history twice: offers only, and with force-after-refusal
+					for _, withForce := range []bool{false, true} {
+						s := newArchSession(c, tag)
+						for _, gi := range prefix {
+							code := s.attempt(grid[gi])
+							if withForce && code == "RD" {
+								s.force(grid[gi], true)
+							}
+						}
+						s.selfCheck()
+					}
+				}
+				count++
+			}
+			if len(prefix) == maxLen {
+				return
+			}
+			for gi := range grid {
+				rec(append(prefix, gi))
+			}
+		}
+		rec(nil)
+	}
+	grid := mkGrid(2, []float64{0, 1, 2})
+	grid1 := mkGrid(1, []float64{0, 1, 2})
+	grid3 := mkGrid(3, []float64{0, 1})
 	if c.Thorough() {
-		rec(nil)
+		exhaustive(grid, 4, "exh")
+		exhaustive(grid1, 4, "exh1")
+		exhaustive(grid3, 3, "exh3")
 	} else {
-		// quick: all histories of length <= 2, and a random sample of longer ones
-		maxLen = 2
-		rec(nil)
-		for n := 0; n < 3000; n++ {
-			s := newArchSession(c, "exh-sample")
+		// quick: all histories of length <= 2 (dimension 2 and 3) / <= 3 (dimension 1), and a random sample of longer ones
+		exhaustive(grid, 2, "exh")
+		exhaustive(grid1, 3, "exh1")
+		exhaustive(grid3, 2, "exh3")
+	}
+	for _, g := range []struct {
+		grid []cand
+		tag  string
+		n    int
+	}{{grid, "exh-sample", c.N(3000, 0)}, {grid1, "exh1-sample", c.N(500, 1000)}, {grid3, "exh3-sample", c.N(1000, 2000)}} {
+		for n := 0; n < g.n; n++ {
+			s := newArchSession(c, g.tag)
 			l := 3 + r.Intn(3)
 			for i := 0; i < l; i++ {
-				k := grid[r.Intn(len(grid))]
+				k := g.grid[r.Intn(len(g.grid))]
 				if s.attempt(k) == "RD" && r.Bool() {
 					s.force(k, true)
 				}
